@@ -465,6 +465,39 @@ class Prog:
             self._callers = C
         return self._callers
 
+    def family(self, body):
+        """the named function a body belongs to (closures / coroutines stripped)"""
+        return body.id.split('::{closure')[0]
+
+    def private_helpers(self, body, depth=3):
+        """user functions reached from `body` (or the closures nested in its function) whose every caller lies in the same
+        unit: code that an "extract function" refactoring moved out of body.  Returned as a list of bodies, body excluded."""
+        fam = self.family(body)
+        unit = {fam}
+        out = []
+        frontier = [b for b in self.user_bodies() if self.family(b) == fam]
+        C = self.callers()
+        for _ in range(depth):
+            nxt = []
+            for b in frontier:
+                for bi, t in b.calls():
+                    cb = self.bodies.get(callee(t))
+                    if cb is None or t['f'].get('ind') or cb.promoted:
+                        continue
+                    f2 = self.family(cb)
+                    if f2 in unit:
+                        continue
+                    cs = C.get(cb.id, [])
+                    if cs and all(self.family(x) in unit for x, _ in cs):
+                        unit.add(f2)
+                        members = [x for x in self.user_bodies() if self.family(x) == f2]
+                        out += members
+                        nxt += members
+            frontier = nxt
+            if not frontier:
+                break
+        return out
+
     def closure_sites(self):
         """closure def id -> (creator Body, bi, si, ops)"""
         if self._closure_sites is None:
@@ -1046,3 +1079,11 @@ def enum_variants_of(body, operand, stop_at_calls=False):
         else:
             out.add('?')
     return out
+
+
+STR_TYS = ('std::string::String', '&std::string::String', '&str', '&mut std::string::String', "&'static str")
+
+
+def is_str_ty(ty):
+    """an owned or borrowed string (a parameter changed from String to &str is the same anchor)"""
+    return ty in STR_TYS
